@@ -123,8 +123,24 @@ def run_impl_many(plugin, cases, procs=None):
     if getattr(plugin, "SERIAL_IMPL", False):
         procs = 1
     ctx = mp.get_context("spawn")
-    with ctx.Pool(procs, initializer=_worker_init, initargs=(plugin.__name__, REPO)) as pool:
-        return pool.map(_worker_run, cases, chunksize=max(1, len(cases) // (procs * 8) or 1))
+    # Early stop: a hang or crash inside run_impl is a violation by itself (fail closed).  When a change makes
+    # MANY cases hang, waiting for every per-case time-out would keep the check running for a long time, so
+    # after ABNORMAL_STOP such outcomes the remaining cases are not run: the observations returned cover a
+    # prefix of the cases (the driver pairs them up with zip) and the abnormal ones are reported at once.
+    stop_after = int(os.environ.get("VERIF_ABNORMAL_STOP", "12"))
+    out, bad = [], 0
+    pool = ctx.Pool(procs, initializer=_worker_init, initargs=(plugin.__name__, REPO))
+    try:
+        for o in pool.imap(_worker_run, cases, chunksize=max(1, min(8, len(cases) // (procs * 8) or 1))):
+            out.append(o)
+            if is_abnormal(o):
+                bad += 1
+                if bad >= stop_after:
+                    break
+    finally:
+        pool.terminate()
+        pool.join()
+    return out
 
 
 def is_abnormal(obs):
